@@ -324,7 +324,7 @@ def gen_digits(src):
     if not m2:
         die("i64/u64 macro invocation not found")
     mac = impl_body(src, r'macro_rules! impl_NumToRepr_for_integers\s*\{')
-    mac_norm = re.sub(r'\s+', ' ', mac)
+    mac_norm = norm_ws(mac)
     # the writer: literal structure checked piece by piece (each is a proof-relevant constant)
     need = [
         ('let digits_count = DigitCount::digit_count(self);', 'digit count from the table'),
@@ -343,7 +343,7 @@ def gen_digits(src):
         ('repr.set_len(digits_count);', 'final length'),
     ]
     for piece, what in need:
-        if re.sub(r'\s+', ' ', piece) not in mac_norm:
+        if norm_ws(piece) not in mac_norm:
             die(f"integer writer: expected statement for '{what}' not found: {piece}")
     out.append("Definition writer_shape_checked : bool := true.   (* translate.py matched every statement of the integer writer *)")
     # nonzero forms delegate through .get()
@@ -351,11 +351,11 @@ def gen_digits(src):
         die("NonZero forms do not delegate via self.get().into_repr()")
     for ty in ('u128', 'i128'):
         b = impl_body(src, r'impl NumToRepr for ' + ty + r'\s*\{')
-        if 'Repr::from_str(itoa::Buffer::new().format(self))' not in re.sub(r'\s+', ' ', b):
+        if norm_ws('Repr::from_str(itoa::Buffer::new().format(self))') not in norm_ws(b):
             die(f"{ty} does not go through itoa + from_str")
     for ty in ('f32', 'f64'):
         b = impl_body(src, r'impl NumToRepr for ' + ty + r'\s*\{')
-        if 'Repr::from_str(ryu::Buffer::new().format(self))' not in re.sub(r'\s+', ' ', b):
+        if norm_ws('Repr::from_str(ryu::Buffer::new().format(self))') not in norm_ws(b):
             die(f"{ty} does not go through ryu + from_str")
     return "\n".join(out)
 
@@ -374,32 +374,32 @@ def gen_growth(src, consts):
         env[m.group(1)] = m.group(1)
     lines.append(f"  {tr_expr(stmts[-1], env, consts)}.")
     # MAX_LEN: literal shape
-    norm = re.sub(r'\s+', ' ', src)
+    norm = norm_ws(src)
     shape = ('const MAX_LEN: usize = { let mut bytes = [255; USIZE_SIZE]; bytes[USIZE_SIZE - 1] = 0; '
              'usize::from_le_bytes(bytes) - if cfg!(target_pointer_width = "32") { 1 } else { 0 } };')
-    if shape not in norm:
+    if norm_ws(shape) not in norm:
         die("MAX_LEN is not the expected 7-bytes-of-255 constant")
-    if 'const USIZE_SIZE: usize = size_of::<usize>();' not in norm:
+    if norm_ws('const USIZE_SIZE: usize = size_of::<usize>();') not in norm:
         die("USIZE_SIZE changed")
     lines.append(f"Definition MAX_LEN : N := {2**56 - 1}.")
     # header: two usize-sized fields
     hb = impl_body(src, r'struct Header\s*\{')
-    if re.sub(r'\s+', ' ', hb).strip() != 'count: AtomicUsize, capacity: Capacity,':
+    if norm_ws(hb).rstrip(',') != norm_ws('count: AtomicUsize, capacity: Capacity'):
         die(f"Header layout changed: {hb.strip()!r}")
-    if 'pub(super) struct Capacity(usize);' not in norm:
+    if norm_ws('pub(super) struct Capacity(usize);') not in norm:
         die("Capacity is not a usize newtype")
     lines.append("Definition HEADER_SIZE : N := 16.")
     return "\n".join(lines)
 
 def gen_consts(repr_src, static_src, consts):
-    r = re.sub(r'\s+', ' ', strip_comments(repr_src))
-    if 'const MAX_INLINE_SIZE: usize = 2 * size_of::<usize>();' not in r:
+    r = norm_ws(strip_comments(repr_src))
+    if norm_ws('const MAX_INLINE_SIZE: usize = 2 * size_of::<usize>();') not in r:
         die("MAX_INLINE_SIZE changed")
-    if ('#[cfg(target_pointer_width = "64")] pub(crate) struct Repr(*const (), [u8; 7], LastByte);') not in r:
+    if norm_ws('#[cfg(target_pointer_width = "64")] pub(crate) struct Repr(*const (), [u8; 7], LastByte);') not in r:
         die("Repr layout changed")
-    s = re.sub(r'\s+', ' ', strip_comments(static_src))
+    s = norm_ws(strip_comments(static_src))
     shape = 'const MAX_LENGTH: usize = { let mut bytes = [255; USIZE_SIZE]; bytes[USIZE_SIZE - 1] = 0; usize::from_le_bytes(bytes) };'
-    if shape not in s:
+    if norm_ws(shape) not in s:
         die("StaticBuffer::MAX_LENGTH changed")
     return "\n".join(["(* ---- constants ---- *)",
                       "Definition MAX_INLINE_SIZE : N := 16.",
@@ -638,7 +638,19 @@ def gen_skeletons(srcs):
 MEM_CALLS = re.compile(r'\b(copy|copy_nonoverlapping|copy_from_slice|set_len|truncate_unchecked|write|realloc|alloc|dealloc|'
                        r'with_additional|with_exact_capacity|with_capacity|amortized_growth|layout_from_capacity|get_unchecked_mut|add)\s*\(')
 def norm_ws(t):
-    return re.sub(r'\s+', ' ', t).strip()
+    """canonical spelling of a piece of source text: independent of line breaks, indentation, spaces around punctuation
+    and trailing commas (what rustfmt may change), a single space only between two word tokens"""
+    toks = re.findall(r'[A-Za-z_0-9]+|\S', t)
+    out = []
+    for k, tok in enumerate(toks):
+        if tok == ',' and k + 1 < len(toks) and toks[k + 1] in ')]}':
+            continue
+        if out and re.match(r'\w', out[-1][-1]) and re.match(r'\w', tok[0]):
+            out.append(' ')
+        out.append(tok)
+    txt = ''.join(out)
+    # readability only: a space after commas and around binary + - * / = operators is not reintroduced
+    return txt
 def gen_mem_sites(srcs):
     """for every hand-modelled function: each memory-moving / sizing call with its full argument text, and the `let`
     bindings of the identifiers those arguments mention — the pointer arithmetic the model's offsets were read from"""
